@@ -188,7 +188,7 @@ def bounded(b):
                         gi = [tuple(int(x) for x in r) for r in idxs]
                         b.case("roll/index_rows_designate_the_notes_cells_in_input_order", gi == [tuple(w) for w in want_idx], case, "index rows %r, expected %r" % (gi, want_idx))
     # drum channel filtering
-    for ch in ([0, 9, 1], [9, 9, 0]):
+    for ch in ([0, 9, 1], [9, 9, 0], [10, 9, 15], [8, 11, 9]):
         notes = [(60, 0.0, 1.0, 64), (36, 0.0, 1.0, 100), (62, 1.0, 1.0, 70)]
         na = np.array([n + (c,) for n, c in zip(notes, ch)], dtype=[("pitch", "i4"), ("onset_sec", "f4"), ("duration_sec", "f4"), ("velocity", "i4"), ("channel", "i4")])
         for rd in (True, False):
@@ -203,12 +203,13 @@ def bounded(b):
     # pitch-class roll = octave fold
     for name, notes in arrays:
         na = np.array([n for n in notes], dtype=[("pitch", "i4"), ("onset_beat", "f4"), ("duration_beat", "f4"), ("velocity", "i4")])
-        for normalize in (True, False):
-            case = {"array": name, "pitch_class_normalize": normalize}
-            ok, pc = b.guard("pitch_class/no_exception", case, lambda: compute_pitch_class_pianoroll(na, time_div=4, normalize=normalize, binary=True))
+        for normalize, popts in ((True, {}), (False, {}), (False, {"note_separation": True}), (False, {"onset_only": True}), (False, {"time_margin": 2}),
+                                 (True, {"note_separation": True, "time_margin": 1})):
+            case = {"array": name, "pitch_class_normalize": normalize, "options": popts}
+            ok, pc = b.guard("pitch_class/no_exception", case, lambda: compute_pitch_class_pianoroll(na, time_div=4, normalize=normalize, binary=True, **popts))
             if not ok:
                 continue
-            full = compute_pianoroll(na, time_div=4, binary=True).toarray()
+            full = compute_pianoroll(na, time_div=4, binary=True, **popts).toarray()
             fold = np.zeros((12, full.shape[1]))
             for p in range(128):
                 fold[p % 12] += full[p]
